@@ -362,7 +362,9 @@ pub fn oracle_cli_quit(scn: &E3Scn, d: &D3, out: &RunOut, stats: &mut Stats) -> 
                 continue;
             }
         };
-        let deadline = sig_t + timeout;
+        // with --delay-run closures still queued the observed signal may be an earlier change's busy-signal of the
+        // same kind; the quit's own stop then comes no later than the end of those delays
+        let deadline = if pending_delay > 0 { q + pending_delay + timeout } else { sig_t + timeout };
         if c.exit.map(|e| e.0 > deadline).unwrap_or(true) {
             vs.push(Violation::new("quit-no-kill-at-stop-timeout", "cli", format!("child {k} still alive after t={deadline} (stop timeout {timeout} ms after the quit at t={q})")));
         }
